@@ -56,6 +56,11 @@ fn shapes(lg_k: u8) -> Vec<(&'static str, Vec<u32>)> {
     if lg_k >= 8 {
         v.push(("set(20)", (0..20).map(|i| coupon(i * 37 + 3 + ((i % 3) << 22), 1 + (i % 6) as u8)).collect()));
     }
+    if lg_k >= 10 {
+        // the largest set the configuration allows (one below the promotion to an array)
+        let n = 3 * (1u32 << (lg_k - 3)) / 4 - 1;
+        v.push(("set(max)", (0..n).map(|i| coupon(i * 37 + 3 + ((i % 3) << 22), 1 + (i % 6) as u8)).collect()));
+    }
     // dense array: every slot gets value 1 + (slot % 5), some slots a second higher value
     let mut dense: Vec<u32> = (0..k).map(|s| coupon(s, 1 + (s % 5) as u8)).collect();
     dense.push(coupon(3, 9));
@@ -456,6 +461,19 @@ pub fn explore(ctx: &Ctx, obs: &Observer) {
                 continue;
             }
             obs(ctx, &s1, &|| replay_json(lg_max_k, &[op0.clone(), op1.clone()], &pool));
+            // thorough: depth 3 over the full pool (every ordered triple), unobserved runs only
+            if ctx.tier == Tier::Thorough && !ctx.reduced {
+                for l in 0..n {
+                    let mut s2 = s1.clone();
+                    let op2 = Op::Update(l);
+                    let vs = s2.apply(&op2, &pool, &mut e);
+                    ctx.add_transitions(1);
+                    ctx.add_states(1);
+                    if !vs.is_empty() {
+                        report(ctx, vs, lg_max_k, &[op0.clone(), op1.clone(), op2.clone()], &pool);
+                    }
+                }
+            }
         }
         let mut g = edges.lock().unwrap();
         for (k, v) in e {
@@ -538,8 +556,8 @@ pub fn run(ctx: &Ctx) -> i32 {
     let cov = json!({
         "exhaustive": true,
         "bounds": {
-            "pool": "lg_k x {Hll4,Hll6,Hll8} x {empty, list(3), set(20), array(dense), array(exceptions incl. 63,31,32)} x {fresh, serialize round trip, out-of-order via a previous union, out-of-order via a foreign image}",
-            "depth2": "all ordered pairs of pool members for every lg_max_k",
+            "pool": "lg_k x {Hll4,Hll6,Hll8} x {empty, list(3), set(20), set(max) for lg_k>=10, array(dense), array(exceptions incl. 63,31,32)} x {fresh, serialize round trip, out-of-order via a previous union, out-of-order via a foreign image}",
+            "depth2": "all ordered pairs of pool members for every lg_max_k (thorough: all ordered triples)",
             "bfs": "depth 5 (quick) / 7 (thorough) over a reduced pool of 8 + update_value x3 + reset",
         },
     });
